@@ -25,6 +25,8 @@ class LenS(S):
 
 
 def length_of(x):
+    if isinstance(x, sym.Dep):
+        return x._generic()
     if isinstance(x, A):
         if not x.axes:
             raise TypeError("len() of unsized object")
@@ -369,14 +371,18 @@ def build_models(interp):
     reg(np.shape, lambda x: x.shape)
     reg(np.transpose, lambda x: x.T)
 
-    def m_any(x):
+    def m_any(x, *a, **k):
         if isinstance(x, A):
-            raise Unsupported("any() over a symbolic array (cross-event operator)")
+            return x.any(*a, **k)
+        if isinstance(x, S):
+            return S(boo(x.e))
         return builtins.any(interp.truth(v) for v in x)
 
-    def m_all(x):
+    def m_all(x, *a, **k):
         if isinstance(x, A):
-            raise Unsupported("all() over a symbolic array (cross-event operator)")
+            return x.all(*a, **k)
+        if isinstance(x, S):
+            return S(boo(x.e))
         return builtins.all(interp.truth(v) for v in x)
 
     reg(any, m_any)
@@ -396,7 +402,7 @@ def build_models(interp):
         if isinstance(x, S):
             if x.e.is_integer:
                 return S(x.e, "py")
-            return S(sp.Piecewise((sp.floor(x.e), x.e >= 0), (sp.ceiling(x.e), True)), "py")
+            return S(sym.Ite(x.e >= 0, sp.floor(x.e), sp.ceiling(x.e)), "py")
         raise Unsupported("int() of %r" % type(x))
 
     reg(int, m_int)
